@@ -9,12 +9,18 @@ from ._common import shrink
 @jitted(
     "Tuple((f8[:, :], i4))(f8[:], f8[:], f8[:, :], f8[:, :], f8, f8, f8, f8, f8, i4, b1)"
 )
-def _ray2d(z, x, zgrad, xgrad, zend, xend, zsrc, xsrc, stepsize, max_step, honor_grid):
-    """Perform a posteriori 2D ray-tracing."""
+def _ray2d_core(z, x, zgrad, xgrad, zend, xend, zsrc, xsrc, stepsize, max_step, honor_grid):
+    """
+    Perform a posteriori 2D ray-tracing.
+
+    Instead of raising, return a negative count: -1 if the end point is out of
+    bound, -2 if the maximum number of steps is reached.
+
+    """
     condz = z[0] <= zend <= z[-1]
     condx = x[0] <= xend <= x[-1]
     if not (condz and condx):
-        raise ValueError("end point out of bound")
+        return np.empty((max_step, 2), dtype=np.float64), -1
 
     if honor_grid:
         nz, nx = len(z), len(x)
@@ -84,12 +90,40 @@ def _ray2d(z, x, zgrad, xgrad, zend, xend, zsrc, xsrc, stepsize, max_step, honor
             count += 1
 
         if count >= max_step:
-            raise RuntimeError("maximum number of steps reached")
+            break
 
     if count >= max_step:
-        raise RuntimeError("maximum number of steps reached")
+        return ray, -2
 
     ray[count] = np.array([zsrc, xsrc], dtype=np.float64)
+
+    return ray, count
+
+
+@jitted(
+    "Tuple((f8[:, :], i4))(f8[:], f8[:], f8[:, :], f8[:, :], f8, f8, f8, f8, f8, i4, b1)"
+)
+def _ray2d(z, x, zgrad, xgrad, zend, xend, zsrc, xsrc, stepsize, max_step, honor_grid):
+    """Perform a posteriori 2D ray-tracing."""
+    ray, count = _ray2d_core(
+        z,
+        x,
+        zgrad,
+        xgrad,
+        zend,
+        xend,
+        zsrc,
+        xsrc,
+        stepsize,
+        max_step,
+        honor_grid,
+    )
+
+    if count == -1:
+        raise ValueError("end point out of bound")
+
+    if count == -2:
+        raise RuntimeError("maximum number of steps reached")
 
     return ray, count
 
@@ -103,7 +137,7 @@ def _ray2d_vectorized(
     rays = np.empty((n, max_step, 2), dtype=np.float64)
     counts = np.empty(n, dtype=np.int32)
     for i in prange(n):
-        rays[i], counts[i] = _ray2d(
+        rays[i], counts[i] = _ray2d_core(
             z,
             x,
             zgrad,
@@ -116,6 +150,14 @@ def _ray2d_vectorized(
             max_step,
             honor_grid,
         )
+
+    # Exceptions cannot be raised from within a parallel loop
+    for i in range(n):
+        if counts[i] == -1:
+            raise ValueError("end point out of bound")
+
+        if counts[i] == -2:
+            raise RuntimeError("maximum number of steps reached")
 
     return rays, counts
 
